@@ -963,10 +963,39 @@ def blocks_rule(ctx):
         if len(o0.fields) == 1 and o0.params() == {1} and not o0.call_names() and o1.consts() == {1}:
             ok = True
             cd_field = list(o0.fields)[0]
-    ctx.ob('BLOCKS', 'has_more/countdown', ok, short_loc(hm.span), 'per-element countdown is checked_sub(self.%s, 1): %s' % (cd_field, ok))
+    # the explicit spelling: `if self.F > 0 { self.F -= 1; return Ok(true) }` - a decrement of a field of self by the
+    # constant 1 at a point where F > 0 (or F != 0, F >= 1) is known to hold
+    explicit = []
+    if not ok:
+        for bb in sorted(hm.live_blocks()):
+            if hm.is_cleanup(bb):
+                continue
+            for s_ in hm.stmts(bb):
+                if 'assign' in s_ and s_['rv']['k'] in ('bin', 'checked_bin') and s_['rv']['op'] in ('Sub', 'SubWithOverflow'):
+                    lo_, ro_ = origin(hm, s_['rv']['l']), origin(hm, s_['rv']['r'])
+                    if len(lo_.fields) == 1 and lo_.params() == {1} and not lo_.call_names() and not lo_.has_arith() and ro_.consts() == {1} and not ro_.params():
+                        fld_ = list(lo_.fields)[0]
+                        pos = False
+                        for g_ in cmp_guards(hm, bb):
+                            if g_['l'].fields == {fld_} and not g_['l'].call_names() and not g_['r'].params() and not g_['r'].fields and \
+                                    ((g_['op'] in ('Gt', 'Ne') and g_['r'].consts() == {0}) or (g_['op'] == 'Ge' and g_['r'].consts() == {1})):
+                                pos = True
+                        if pos:
+                            explicit.append((bb, fld_))
+        if len({x[1] for x in explicit}) == 1:
+            ok = True
+            cd_field = explicit[0][1]
+    ctx.ob('BLOCKS', 'has_more/countdown', ok, short_loc(hm.span), 'per-element countdown is checked_sub(self.%s, 1), or self.%s - 1 under a positivity test of it: %s' % (cd_field, cd_field, ok))
     rb = [(bb, t) for bb, t in hm.calls() if 'read_block_len' in cname(t)]
     ok = len(rb) == 1
-    if ok:
+    if ok and explicit:
+        # ... then the header is read only where the countdown is known to be exhausted (F <= 0 / F == 0 / F < 1)
+        ok = False
+        for g_ in cmp_guards(hm, rb[0][0]):
+            if g_['l'].fields == {cd_field} and not g_['l'].call_names() and not g_['r'].params() and not g_['r'].fields and \
+                    ((g_['op'] in ('Le', 'Eq') and g_['r'].consts() == {0}) or (g_['op'] == 'Lt' and g_['r'].consts() == {1})):
+                ok = True
+    elif ok:
         og = option_guards(hm, rb[0][0])
         ok = any('None' in names and any(call_matches(c, ['::checked_sub']) for c in oo.calls) for names, adt, oo, d_, oth in og)
     ctx.ob('BLOCKS', 'has_more/header-read-exactly-at-zero', ok, short_loc(hm.span), 'read_block_len is called only in the None arm of the countdown: %s' % ok)
@@ -1040,12 +1069,14 @@ def blocks_rule(ctx):
                     continue
                 from_hdr = any('read_block_len' in cname(c) for c in o.calls)
                 from_cd = any(call_matches(c, ['::checked_sub']) for c in o.calls)
+                explicit_cd = bool(explicit) and not from_hdr and o.fields == {cd_field} and 1 in o.consts() and not o.call_names() and \
+                    bool({x for x in o.flags if x.startswith('arith:')}) and {x for x in o.flags if x.startswith('arith:')} <= {'arith:SubWithOverflow', 'arith:Sub'}
                 ar = {x for x in o.flags if x.startswith('arith:')}
                 if from_hdr and ar <= {'arith:SubWithOverflow', 'arith:Sub'} and 1 in o.consts() and ar:
                     seen_hdr = True
-                if from_cd and (not ar or from_hdr):
+                if (from_cd and (not ar or from_hdr)) or explicit_cd:
                     seen_cd = True
-                if not from_hdr and not from_cd:
+                if not from_hdr and not from_cd and not explicit_cd:
                     other = True
     st = seen_hdr and seen_cd and not other
     ctx.ob('BLOCKS', 'has_more/stores-count-minus-one', st, short_loc(hm.span), 'self.%s = countdown | header count - 1: %s' % (cd_field, st))
